@@ -87,6 +87,12 @@ def _report_all(ctx: Ctx, rid: str, it: Interp, tag: str) -> int:
     return n
 
 
+def _need(v: Any, where: str) -> Any:
+    if isinstance(v, T.Top):
+        raise AnalysisIncomplete(f'{where}: the abstract value is unknown ({v.why[:160]}); paths that the flag partition does not separate disagree or use an unmodelled operator')
+    return v
+
+
 def _incomplete(it: Interp, where: str, only: tuple[str, ...] = ()) -> None:
     unk = [(f.short, getattr(n, 'lineno', 0), why) for f, n, why in it.unknown if not only or any(f.short.endswith(o) for o in only)]
     if unk:
@@ -255,3 +261,404 @@ def rule_tt_comm(ctx: Ctx) -> None:
                       f'{m} communicates {v} with symmetric={sym}', ev[2])
         if not cm:
             ctx.violate('TT-SYM', f, m, f'{m}: no communication of the factor found', f.node)
+
+
+# --------------------------------------------------------------------------- module helpers: layout (C15) and factors (C04)
+
+LIN = 'kfac.layers.modules.LinearModuleHelper'
+CONV = 'kfac.layers.modules.Conv2dModuleHelper'
+XU = (('x', 1),)
+
+
+def helper_oracle(kind: str, bias: bool):  # noqa: ANN201
+    wax = ('OUT', 'IN') if kind == 'linear' else ('OUT', 'C', 'KH', 'KW')
+
+    def oracle(it: Interp, f: Func, node: ast.AST, s: Any) -> Any:
+        t = norm(node)
+        if t == 'self.module.weight.grad':
+            return TV(wax, GAMMA, 'grad', frozenset(), frozenset({'param.grad:weight'}))
+        if t == 'self.module.bias.grad':
+            return TV(('OUT',), GAMMA, 'grad', frozenset(), frozenset({'param.grad:bias'})) if bias else NONE
+        if t == 'self.module.weight':
+            return TV(wax, (), 'param', frozenset(), frozenset({'param:weight'}))
+        if t == 'self.module.bias':
+            return ObjV('bias') if bias else NONE
+        if t in ('self.has_bias()', 'self.module.has_bias()'):
+            return SV((), 'True' if bias else 'False', 'flag')
+        if t == 'self.module.in_channels':
+            return SV((), 'C', 'size', 'C')
+        if t == 'self.module.out_channels':
+            return SV((), 'OUT', 'size', 'OUT')
+        if t == 'self.module.kernel_size[0]':
+            return SV((), 'KH', 'size', 'KH')
+        if t == 'self.module.kernel_size[1]':
+            return SV((), 'KW', 'size', 'KW')
+        if t in ('self.module.padding', 'self.module.kernel_size', 'self.module.stride'):
+            return ObjV(t.split('.')[-1])
+        if t == 'self.module':
+            return ObjV('nn')
+        return layer_oracle(it, f, node, s)
+    return oracle
+
+
+def helper_flags(bias: bool, padded: bool = True) -> dict:
+    return {'self.has_bias()': bias, 'self.module.has_bias()': bias, 'padding[0] + padding[1] > 0': padded, 'b is None': True, 'scale is None': True, 'len(a.shape) != 2': False}
+
+
+def _call(ctx: Ctx, cls: str, meth: str, args: dict, oracle: Any, flags: dict, kind: str = 'method') -> tuple[Interp, Any]:
+    p = ctx.prog
+    p.family = None
+    it = Interp(p, flags, oracle)
+    it.concrete = [cls]
+    f = p.lookup_method(cls, meth, kind)
+    if f is None:
+        raise AnalysisIncomplete(f'{cls}.{meth} not found')
+    r, _fin = it.call_function(f, {'self': ObjV('self'), **args}, {'__class__': ObjV(cls)})
+    return it, r
+
+
+def rule_layout(ctx: Ctx) -> None:
+    """TT-BIASLAST, TT-PATCH, TT-GEOM, TT-SHAPEFN, TT-ROUNDTRIP (C15)."""
+    p = ctx.prog
+    ctx.assumptions.add('A3')
+    ctx.rule('TT-BIASLAST', 'one layout: rows of the combined gradient = space of G, columns = space of A = input features followed by the bias column', floor=8)
+    ctx.rule('TT-PATCH', 'patch extraction yields (B, OH, OW, C x KH x KW): the composite order of weight.view(OUT, -1)', floor=2)
+    ctx.rule('TT-GEOM', 'every operation on H uses index 0 and every operation on W uses index 1 of padding / kernel_size / stride; F.pad pads W first', floor=2)
+    ctx.rule('TT-SHAPEFN', 'advertised factor shapes equal the shapes of the factors the helper computes', floor=8)
+    ctx.rule('TT-ROUNDTRIP', 'set_grad(get_grad()) returns each piece to its own parameter with its own shape, contiguous', floor=4)
+    for kind, cls in (('linear', LIN), ('conv', CONV)):
+        for bias in (True, False):
+            tag = f'{kind}{"+bias" if bias else ""}'
+            orc = helper_oracle(kind, bias)
+            fl = helper_flags(bias)
+            # --- combined gradient
+            it, g = _call(ctx, cls, 'get_grad', {}, orc, fl)
+            _need(g, f'{cls}.get_grad [{tag}]')
+            n = _report_all(ctx, 'TT-BIASLAST', it, tag)
+            _incomplete(it, f'{cls}.get_grad [{tag}]')
+            feat = 'IN' if kind == 'linear' else ('prod', 'C', 'KH', 'KW')
+            want_cols = ('cat', feat, 'ONE') if bias else feat
+            f_gg = p.lookup_method(cls, 'get_grad')
+            okg = isinstance(g, TV) and g.axes == ('OUT', want_cols)
+            ctx.check(okg, 'TT-BIASLAST', f_gg, f'[{tag}] get_grad(): {g}', f'{tag} get_grad',
+                      f'[{tag}] get_grad() returns {g}; specified: one row per output unit, columns = {"unfolded " if kind == "conv" else ""}input features{" followed by the bias column" if bias else ""} {T.axes_str(("OUT", want_cols))}', f_gg.node)
+            # --- A factor
+            a_in = TV(('B', 'S', 'IN'), XU, 'factor') if kind == 'linear' else TV(('B', 'C', 'H', 'W'), XU, 'factor')
+            ita, A = _call(ctx, cls, 'get_a_factor', {'a': a_in}, orc, fl)
+            _need(A, f'{cls}.get_a_factor [{tag}]')
+            _report_all(ctx, 'TT-BIASLAST', ita, tag)
+            _incomplete(ita, f'{cls}.get_a_factor [{tag}]')
+            f_a = p.lookup_method(cls, 'get_a_factor')
+            if kind == 'conv':
+                # identify kernel windows with the weight's kernel dims (A3: weight is (OUT, C, KH, KW), kernel_size[0] <-> H)
+                A = _rename_kernel_axes(A)
+            okA = isinstance(A, TV) and len(A.axes) == 2 and A.axes[0] == A.axes[1] == want_cols
+            ctx.check(okA, 'TT-BIASLAST', f_a, f'[{tag}] A factor over the column space of the gradient: {A}', f'{tag} A space',
+                      f'[{tag}] get_a_factor() yields {A}; its index space must equal the column space of get_grad() {T.axes_str((want_cols,))} (same feature order, bias last)', f_a.node)
+            # --- G factor
+            g_in = TV(('B', 'S', 'OUT'), GAMMA, 'factor') if kind == 'linear' else TV(('B', 'OUT', 'OH', 'OW'), GAMMA, 'factor')
+            itg, G = _call(ctx, cls, 'get_g_factor', {'g': g_in}, orc, fl)
+            _need(G, f'{cls}.get_g_factor [{tag}]')
+            _report_all(ctx, 'TT-BIASLAST', itg, tag)
+            _incomplete(itg, f'{cls}.get_g_factor [{tag}]')
+            f_g = p.lookup_method(cls, 'get_g_factor')
+            ctx.check(isinstance(G, TV) and G.axes == ('OUT', 'OUT'), 'TT-BIASLAST', f_g, f'[{tag}] G factor over the row space of the gradient: {G}', f'{tag} G space',
+                      f'[{tag}] get_g_factor() yields {G}; its index space must be the output units (OUT, OUT)', f_g.node)
+            # --- advertised shapes
+            for prop, want in (('a_factor_shape', want_cols), ('g_factor_shape', 'OUT')):
+                its, shp = _call(ctx, cls, prop, {}, orc, fl, 'getter')
+                fp = p.lookup_method(cls, prop, 'getter')
+                got = None
+                if isinstance(shp, T.ListV) and len(shp.items) == 2 and all(isinstance(x, SV) and x.kind == 'size' for x in shp.items):
+                    got = tuple(x.size for x in shp.items)
+                ctx.check(got == (want, want), 'TT-SHAPEFN', fp, f'[{tag}] {prop} = {T.axes_str(got) if got else shp}', f'{tag} {prop}',
+                          f'[{tag}] {prop} advertises {T.axes_str(got) if got else shp}; the factor actually computed is over {T.axes_str((want, want))}', fp.node)
+            # --- round trip
+            comb = TV(('OUT', want_cols), WANT_UNIT, 'grad')
+            itr, _ = _call(ctx, cls, 'set_grad', {'grad': comb}, orc, fl)
+            _report_all(ctx, 'TT-ROUNDTRIP', itr, tag)
+            _incomplete(itr, f'{cls}.set_grad [{tag}]')
+            f_s = p.lookup_method(cls, 'set_grad')
+            stores = {ev[3][0]: ev for ev in itr.events if ev[0] == 'attr-store'}
+            wax = ('OUT', 'IN') if kind == 'linear' else ('OUT', 'C', 'KH', 'KW')
+            w = stores.get('self.module.weight.grad')
+            okw = w is not None and isinstance(w[3][1], TV) and w[3][1].axes == wax and norm(w[2].value).endswith('.contiguous()')
+            ctx.check(okw, 'TT-ROUNDTRIP', f_s, f'[{tag}] weight.grad <- {w[3][1] if w else None}', f'{tag} weight write-back',
+                      f'[{tag}] set_grad writes {w[3][1] if w else "nothing"} into weight.grad; specified: the feature columns viewed with the weight\'s own shape {T.axes_str(wax)}, contiguous', w[2] if w else f_s.node)
+            b = stores.get('self.module.bias.grad')
+            if bias:
+                okb = b is not None and isinstance(b[3][1], TV) and b[3][1].axes == ('OUT',) and norm(b[2].value).endswith('.contiguous()')
+                ctx.check(okb, 'TT-ROUNDTRIP', f_s, f'[{tag}] bias.grad <- {b[3][1] if b else None}', f'{tag} bias write-back',
+                          f'[{tag}] set_grad writes {b[3][1] if b else "nothing"} into bias.grad; specified: the last column with the bias\' own shape (OUT), contiguous', b[2] if b else f_s.node)
+            else:
+                ctx.check(b is None, 'TT-ROUNDTRIP', f_s, f'[{tag}] no bias write without bias', f'{tag} bias write-back', f'[{tag}] set_grad writes bias.grad although the module has no bias', b[2] if b else f_s.node)
+    # --- conv patch extraction and geometry
+    orc = helper_oracle('conv', True)
+    for padded in (True, False):
+        it, pt = _call(ctx, CONV, '_extract_patches', {'x': TV(('B', 'C', 'H', 'W'), XU, 'factor')}, orc, helper_flags(True, padded))
+        _report_all(ctx, 'TT-PATCH', it, f'conv padded={padded}')
+        _incomplete(it, f'_extract_patches padded={padded}')
+        f = p.lookup_method(CONV, '_extract_patches')
+        Hx = ('pad', 'H', 'padding[0]') if padded else 'H'
+        Wx = ('pad', 'W', 'padding[1]') if padded else 'W'
+        want = ('B', ('win', Hx, 'kernel_size[0]', 'stride[0]'), ('win', Wx, 'kernel_size[1]', 'stride[1]'),
+                ('prod', 'C', ('ker', Hx, 'kernel_size[0]'), ('ker', Wx, 'kernel_size[1]')))
+        okp = isinstance(pt, TV) and pt.axes == want
+        rid = 'TT-PATCH'
+        if isinstance(pt, TV) and not okp and _strip_geom(pt.axes) == _strip_geom(want):
+            rid = 'TT-GEOM'
+        ctx.check(okp, rid, f, f'[padded={padded}] patches {pt}', f'_extract_patches padded={padded}',
+                  f'_extract_patches yields {pt}; specified {T.axes_str(want)}: batch, output rows, output columns, then (channel, kernel row, kernel column) in the order of weight.view(OUT, -1); '
+                  'H is padded by padding[0], unfolded with kernel_size[0] / stride[0]; W by padding[1], kernel_size[1] / stride[1] (F.pad pads the last dimension first)', f.node)
+        if okp:
+            ctx.ok('TT-GEOM', f, f'[padded={padded}] H <-> index 0, W <-> index 1 for padding / kernel_size / stride', f.node)
+        if padded:
+            asym = [ev for ev in it.events if ev[0] == 'pad-asym']
+            ctx.check(not asym, 'TT-GEOM', f, 'zero padding is symmetric per dimension', 'pad symmetry', f'asymmetric padding {[(str(e[3])) for e in asym]}', f.node)
+
+
+def _strip_geom(axes: tuple) -> Any:
+    def s(a: Any) -> Any:
+        if isinstance(a, tuple) and a and a[0] in ('win', 'ker'):
+            return (a[0], s(a[1]))
+        if isinstance(a, tuple) and a and a[0] == 'pad':
+            return s(a[1])
+        if isinstance(a, tuple):
+            return tuple(s(x) for x in a)
+        return a
+    return tuple(s(a) for a in axes)
+
+
+def _rename_kernel_axes(v: Any) -> Any:
+    """('ker', <H...>, 'kernel_size[0]') -> 'KH', ('ker', <W...>, 'kernel_size[1]') -> 'KW' (A3: Conv2d weight is (OUT, C, KH, KW))."""
+    def base(a: Any) -> Any:
+        while isinstance(a, tuple) and a and a[0] == 'pad':
+            a = a[1]
+        return a
+
+    def r(a: Any) -> Any:
+        if isinstance(a, tuple) and a and a[0] == 'ker':
+            if base(a[1]) == 'H' and a[2] == 'kernel_size[0]':
+                return 'KH'
+            if base(a[1]) == 'W' and a[2] == 'kernel_size[1]':
+                return 'KW'
+            return a
+        if isinstance(a, tuple):
+            return tuple(r(x) for x in a)
+        return a
+    if isinstance(v, TV):
+        return replace(v, axes=tuple(r(a) for a in v.axes))
+    return v
+
+
+# --------------------------------------------------------------------------- C04: factors
+
+def _sym_run(ctx: Ctx, f: Func, valuation: dict[str, bool], init: dict, tracked_prefixes: tuple[str, ...] = ('self.',)):  # noqa: ANN202
+    """Symbolic run of a small method with branch tests decided by `valuation` (text -> bool); unknown tests explore both."""
+    from kfv import symexec
+    from kfv.terms import Poly
+
+    def track(t: ast.AST) -> str | None:
+        if isinstance(t, ast.Name):
+            return t.id
+        tx = norm(t)
+        return tx if tx.startswith(tracked_prefixes) else None
+
+    def assume(s, test, pol):  # noqa: ANN001, ANN202
+        tx = norm(test)
+        if tx in valuation:
+            return s if valuation[tx] == pol else None
+        if isinstance(test, ast.UnaryOp) and isinstance(test.op, ast.Not) and norm(test.operand) in valuation:
+            return s if valuation[norm(test.operand)] != pol else None
+        return s
+    cb = symexec.SymCB(lambda c: None, track, None, assume)
+    final, exits = symexec.run(f, cb, {k: (v if isinstance(v, Poly) else Poly.atom(v)) for k, v in init.items()})
+    return cb, final, exits
+
+
+def rule_aff_factor(ctx: Ctx) -> None:
+    """AFF-EMA, AFF-ID, AFF-ACC on KFACBaseLayer.update_*_factor / save_layer_* / reset_batch."""
+    from kfv.terms import Poly
+    p = ctx.prog
+    ctx.rule('AFF-EMA', 'stored factor = alpha*old + (1-alpha)*new in polynomial normal form', floor=2)
+    ctx.rule('AFF-ID', 'a missing factor is first set to the identity of the batch size', floor=2)
+    ctx.rule('AFF-ACC', 'batch buffer = sum of `count` micro-batch moments; update divides by count exactly when count > 1 and clears the buffer; reset clears buffer and count together', floor=8)
+    for X in ('a', 'g'):
+        f = p.get_func(f'layers.base.KFACBaseLayer.update_{X}_factor')
+        batch, count, fac = f'self._{X}_batch', f'self._{X}_count', f'self.{X}_factor'
+        alpha = Poly.atom('alpha')
+        for many in (True, False):
+            for have in (True, False):
+                val = {f'{batch} is None': False, f'{count} > 1': many, f'{fac} is None': not have}
+                cb, fin, exits = _sym_run(ctx, f, val, {batch: 'B', count: 'n', fac: 'F', 'alpha': 'alpha'})
+                if fin is None:
+                    ctx.violate('AFF-EMA', f, f'update_{X}_factor', f'update_{X}_factor has no normal exit with a pending batch', f.node)
+                    continue
+                env = dict(fin.env)
+                new = Poly.atom('B') * (Poly.atom('n').inverse() if many else Poly.const(1))
+                got = env.get(fac)
+                if have:
+                    want = alpha * Poly.atom('F') + (Poly.const(1) - alpha) * new
+                    ctx.check(got == want, 'AFF-EMA', f, f'update_{X}_factor (count>1={many}): {fac} = alpha*old + (1-alpha)*new', f'update_{X}_factor ema many={many}',
+                              f'update_{X}_factor stores {got.canon() if got else None}; specified {want.canon()} (old = F, batch sum = B, count = n)', f.node)
+                else:
+                    # identity initialisation: the old value is whatever the None-branch assigned
+                    init_assign = [n_ for n_ in p.nodes(f) if isinstance(n_, ast.Assign) and norm(n_.targets[0]) == fac and any(
+                        (norm(a), pol) == (f'{fac} is None', True) for g_ in __import__('kfv.flow', fromlist=['x']).enclosing_guards(p, f, n_)
+                        for a, pol in __import__('kfv.rules.spmd_rules', fromlist=['x']).conjuncts(g_.test, g_.polarity))]
+                    okid = len(init_assign) == 1 and norm(init_assign[0].value).replace(' ', '') in (
+                        f'torch.diag({X}_new.new({X}_new.shape[0]).fill_(1))', f'torch.eye({X}_new.shape[0],dtype={X}_new.dtype,device={X}_new.device)',
+                        f'torch.diag({X}_new.new_ones({X}_new.shape[0]))')
+                    ctx.check(okid, 'AFF-ID', f, f'update_{X}_factor: first factor = identity of the batch size', f'update_{X}_factor identity',
+                              f'update_{X}_factor initialises a missing factor with {norm(init_assign[0].value) if init_assign else "nothing"}; specified: the identity matrix of the size (and dtype) of the new batch moment', init_assign[0] if init_assign else f.node)
+                    if init_assign:
+                        I0 = cb.value(symexec_state(fin), init_assign[0].value)
+                        want = alpha * I0 + (Poly.const(1) - alpha) * new
+                        ctx.check(got == want, 'AFF-EMA', f, f'update_{X}_factor first update: alpha*I + (1-alpha)*new', f'update_{X}_factor ema-first many={many}',
+                                  f'update_{X}_factor (first update) stores {got.canon() if got else None}; specified {want.canon()}', f.node)
+                ctx.check(env.get(batch) == Poly.atom('None'), 'AFF-ACC', f, f'update_{X}_factor clears the batch buffer', f'update_{X}_factor clear many={many} have={have}',
+                          f'update_{X}_factor leaves the batch buffer as {env.get(batch).canon() if env.get(batch) else None}; it must be cleared after being consumed', f.node)
+        # no batch: nothing changes
+        cb, fin, exits = _sym_run(ctx, f, {f'{batch} is None': True}, {batch: 'B', count: 'n', fac: 'F', 'alpha': 'alpha'})
+        env = dict(fin.env) if fin else {}
+        ctx.check(fin is not None and env.get(fac) == Poly.atom('F'), 'AFF-ACC', f, f'update_{X}_factor without a batch leaves the factor unchanged', f'update_{X}_factor nobatch',
+                  f'update_{X}_factor changes the factor to {env.get(fac).canon() if env.get(fac) else None} although no batch was accumulated', f.node)
+        # the count test is exactly count > 1
+        tests = [n_ for n_ in p.nodes(f) if isinstance(n_, ast.If) and count in norm(n_.test)]
+        okc = len(tests) == 1 and norm(tests[0].test).replace(' ', '') in (f'{count}>1', f'1<{count}', f'{count}>=2', f'{count}!=1')
+        ctx.check(okc, 'AFF-ACC', f, f'update_{X}_factor divides exactly when count > 1', f'update_{X}_factor count test',
+                  f'update_{X}_factor normalises under `{norm(tests[0].test) if tests else None}`; specified: divide the accumulated sum by the count exactly when more than one micro-batch was accumulated', tests[0] if tests else f.node)
+    for X, m, arg in (('a', 'save_layer_input', 'a'), ('g', 'save_layer_grad_output', 'g')):
+        f = p.get_func(f'layers.base.KFACBaseLayer.{m}')
+        batch, count = f'self._{X}_batch', f'self._{X}_count'
+        # the accumulated value is the result of module.get_X_factor(...)
+        src = [n_ for n_ in p.nodes(f) if isinstance(n_, ast.Assign) and isinstance(n_.value, ast.Call) and norm(n_.value.func) == f'self.module.get_{X}_factor']
+        var = norm(src[-1].targets[0]) if src else None
+        ctx.check(bool(src), 'AFF-ACC', f, f'{m}: accumulates module.get_{X}_factor(...)', f'{m} source', f'{m} does not accumulate the result of module.get_{X}_factor', f.node)
+        for first in (True, False):
+            cb, fin, exits = _sym_run(ctx, f, {f'{batch} is None': first, 'self.grad_scaler is not None': False}, {batch: 'B', count: 'n'})
+            if fin is None:
+                ctx.violate('AFF-ACC', f, m, f'{m} has no normal exit', f.node)
+                continue
+            env = dict(fin.env)
+            newv = env.get(var) if var else None
+            if first:
+                ok = newv is not None and env.get(batch) == newv and env.get(count) == Poly.const(1)
+                want = '(moment, 1)'
+            else:
+                ok = newv is not None and env.get(batch) == Poly.atom('B') + newv and env.get(count) == Poly.atom('n') + Poly.const(1)
+                want = '(batch + moment, count + 1)'
+            ctx.check(ok, 'AFF-ACC', f, f'{m} ({"first" if first else "later"} micro-batch): (batch, count) = {want}', f'{m} first={first}',
+                      f'{m} ({"first" if first else "later"} micro-batch) leaves batch = {env.get(batch).canon() if env.get(batch) else None}, count = {env.get(count).canon() if env.get(count) else None}; specified {want}', f.node)
+    f = p.get_func('layers.base.KFACBaseLayer.reset_batch')
+    cb, fin, exits = _sym_run(ctx, f, {}, {'self._a_batch': 'Ba', 'self._a_count': 'na', 'self._g_batch': 'Bg', 'self._g_count': 'ng'})
+    env = dict(fin.env) if fin else {}
+    ok = fin is not None and all(env.get(k) == Poly.atom('None') for k in ('self._a_batch', 'self._g_batch')) and all(env.get(k) == Poly.const(0) for k in ('self._a_count', 'self._g_count'))
+    ctx.check(ok, 'AFF-ACC', f, 'reset_batch clears both buffers and both counts', 'reset_batch',
+              f'reset_batch leaves {[(k, v.canon()) for k, v in env.items() if k.startswith("self._")]}; buffers must become None and counts 0 together', f.node)
+
+
+def symexec_state(fin: Any) -> Any:
+    return fin
+
+
+def rule_tt_cov(ctx: Ctx) -> None:
+    """TT-COV, TT-BIAS1, TT-CONV, AFF-SCALER, TT-FDTYPE."""
+    p = ctx.prog
+    ctx.assumptions.add('A3')
+    ctx.rule('TT-COV', 'get_cov(a) = a^T (a / rows), a symmetric Gram matrix over the feature space, symmetrised with coefficients summing to 1', floor=3)
+    ctx.rule('TT-BIAS1', 'the appended bias column is constant 1 and is the last column', floor=2)
+    ctx.rule('TT-CONV', 'convolution moments are normalised by the number of output positions taken from the right axes', floor=2)
+    ctx.rule('AFF-SCALER', 'with a gradient scaler the output gradient is divided by the loss scale before the second moment is taken', floor=2)
+    ctx.rule('TT-FDTYPE', 'inputs / output gradients are cast to the factor dtype before the moments are computed', floor=2)
+    # get_cov on a generic 2-D input
+    it = Interp(p, {'b is None': True, 'scale is None': True, 'len(a.shape) != 2': False}, layer_oracle)
+    f = p.get_func('layers.utils.get_cov')
+    r, _ = it.call_function(f, {'a': TV(('R', 'F'), XU, 'factor'), 'b': NONE, 'scale': NONE}, {})
+    _report_all(ctx, 'TT-COV', it, 'get_cov')
+    _incomplete(it, 'get_cov')
+    ok = isinstance(r, TV) and r.axes == ('F', 'F') and 'sym' in r.quals and r.unit == (('x', 2),)
+    ctx.check(ok, 'TT-COV', f, f'get_cov: {r}', 'get_cov type', f'get_cov yields {r}; specified: a symmetric (F, F) second moment a^T a of its 2-D input (R, F)', f.node)
+    coef = dict(r.coef) if isinstance(r, TV) else {}
+    okc = coef.get('(R)') == -1 and {k: v for k, v in coef.items() if k != '(R)'} in ({}, {'2.0': -1, '2': 1}, {'2.0': 0})
+    # symmetrisation (x + x^T)/2 contributes 2 * 1/2 = 1: accept exactly coefficient 1/R overall
+    ctx.check(coef.get('(R)') == -1, 'TT-COV', f, f'get_cov: normalised by the number of rows (coef {r.coef if isinstance(r, TV) else None})', 'get_cov rows',
+              f'get_cov normalises with {r.coef if isinstance(r, TV) else None}; specified: divide once by the number of rows', f.node)
+    # symmetrisation coefficients
+    rets = [n for n in p.nodes(f) if isinstance(n, ast.Return) and n.value is not None and '.t()' in norm(n.value) and '+' in norm(n.value)]
+    for n in rets:
+        from kfv.terms import Normalizer
+        from kfv.terms import Poly
+        nz = Normalizer({}, lambda x: ('CT' if isinstance(x, ast.Call) and norm(x).endswith('.t()') else None))
+        pol = nz.poly(n.value)
+        names = [a for a in pol.atoms() if a not in ('CT',)]
+        tot = sum((c for k, c in pol.t.items()), start=__import__('fractions').Fraction(0))
+        ctx.check(tot == 1 and len(pol.t) == 2, 'TT-COV', f, f'symmetrisation {norm(n.value)}: coefficients sum to 1', 'get_cov symmetrisation',
+                  f'get_cov symmetrises as {norm(n.value)}: the coefficients of C and C^T must sum to 1', n)
+    # append_bias_ones
+    f2 = p.get_func('layers.utils.append_bias_ones')
+    it2 = Interp(p, {}, layer_oracle)
+    r2, _ = it2.call_function(f2, {'tensor': TV(('R', 'F'), XU, 'factor')}, {})
+    _incomplete(it2, 'append_bias_ones')
+    cats = [ev for ev in it2.events if ev[0] == 'cat']
+    okb = isinstance(r2, TV) and r2.axes == ('R', ('cat', 'F', 'ONE')) and len(cats) == 1 and cats[0][3][2] == [None, '1'] and cats[0][3][0] == cats[0][3][1] - 1
+    ctx.check(okb, 'TT-BIAS1', f2, f'append_bias_ones: {r2}, appended constants {cats[0][3][2] if cats else None}', 'append_bias_ones',
+              f'append_bias_ones yields {r2} from parts with constants {cats[0][3][2] if cats else None} along dim {cats[0][3][0] if cats else None}; specified: the input followed by one column of ones on the last axis', f2.node)
+    r3, _ = it2.call_function(f2, {'tensor': TV(('B', 'S', 'F'), XU, 'factor')}, {})
+    ctx.check(isinstance(r3, TV) and r3.axes == ('B', 'S', ('cat', 'F', 'ONE')), 'TT-BIAS1', f2, f'append_bias_ones on N-d input: {r3}', 'append_bias_ones nd',
+              f'append_bias_ones on an N-d input yields {r3}; the ones must be appended on the last axis', f2.node)
+    # conv normalisation
+    orc = helper_oracle('conv', True)
+    ita, A = _call(ctx, CONV, 'get_a_factor', {'a': TV(('B', 'C', 'H', 'W'), XU, 'factor')}, orc, helper_flags(True))
+    _need(A, 'Conv2dModuleHelper.get_a_factor')
+    fa = p.lookup_method(CONV, 'get_a_factor')
+    cA = dict(A.coef) if isinstance(A, TV) else {}
+    wH = "(win(pad(H,padding[0]),kernel_size[0],stride[0]))"
+    wW = "(win(pad(W,padding[1]),kernel_size[1],stride[1]))"
+    rows = f'(prod(B,{wH[1:-1]},{wW[1:-1]}))'
+    sp = f'(prod({wH[1:-1]},{wW[1:-1]}))'
+    wantA = {rows: -1, sp: -2}
+    ctx.check(cA == wantA, 'TT-CONV', fa, f'conv A: coefficient {A.coef if isinstance(A, TV) else None}', 'conv A coef',
+              f'Conv2d get_a_factor normalises with {A.coef if isinstance(A, TV) else None}; specified: 1/rows for the mean and 1/(OH*OW) on each patch factor (spatial size = size(1)*size(2) of the patch tensor)', fa.node)
+    itg, G = _call(ctx, CONV, 'get_g_factor', {'g': TV(('B', 'OUT', 'OH', 'OW'), GAMMA, 'factor')}, orc, helper_flags(True))
+    _need(G, 'Conv2dModuleHelper.get_g_factor')
+    fg = p.lookup_method(CONV, 'get_g_factor')
+    cG = dict(G.coef) if isinstance(G, TV) else {}
+    wantG = {'(prod(B,OH,OW))': -1, '(prod(OH,OW))': -2}
+    ctx.check(cG == wantG, 'TT-CONV', fg, f'conv G: coefficient {G.coef if isinstance(G, TV) else None}', 'conv G coef',
+              f'Conv2d get_g_factor normalises with {G.coef if isinstance(G, TV) else None}; specified: 1/rows and 1/(OH*OW) per factor with (OH, OW) = size(2), size(3) of the output gradient', fg.node)
+    # scaler / factor dtype in the layer
+    for m, argname, arg in (('save_layer_input', 'input_', T.ListV((TV(('B', 'IN'), XU, 'input', frozenset(), frozenset({'hook.input'})),))),
+                            ('save_layer_grad_output', 'grad_output', T.ListV((TV(('B', 'OUT'), (('gamma', 1), ('sigma', 1)), 'input', frozenset(), frozenset({'hook.grad_output'})),)))):
+        for scaler in ((True, False) if m == 'save_layer_grad_output' else (False,)):
+            calls: list = []
+
+            def orc2(it_: Interp, fn: Func, node: ast.AST, s: Any, _calls: list = calls) -> Any:
+                t = norm(node)
+                if isinstance(node, ast.Call) and t.startswith('self.module.get_') and node.args:
+                    v, _s = T._CB(it_, fn).ev(node.args[0], s, True)
+                    _calls.append((node, v))
+                    return TV(('F', 'F'), umul2(v), 'factor', frozenset({'sym'})) if isinstance(v, TV) else T.Top('arg')
+                if t == 'self.grad_scaler()':
+                    return SV((('sigma', 1),), 'scale', 'num')
+                if t == 'self.grad_scaler':
+                    return ObjV('scaler') if scaler else NONE
+                return layer_oracle(it_, fn, node, s)
+            it3 = Interp(p, {'self.grad_scaler is not None': scaler}, orc2)
+            it3.concrete = [BASE]
+            f3 = p.get_func(f'layers.base.KFACBaseLayer.{m}')
+            sl = base_slots(BASE, {'_a_batch': NONE, '_g_batch': NONE, '_a_count': SV((), '0', 'num'), '_g_count': SV((), '0', 'num')})
+            it3.call_function(f3, {'self': ObjV('self'), argname: arg}, sl)
+            _incomplete(it3, f'KFACBaseLayer.{m}', (m,))
+            v = calls[0][1] if calls else None
+            ctx.check(isinstance(v, TV) and v.dtype == 'factor', 'TT-FDTYPE', f3, f'{m}: moment computed on {v}', f'{m} dtype scaler={scaler}',
+                      f'{m} passes {v} to the module helper; the tensor must be cast to the factor dtype first', calls[0][0] if calls else f3.node)
+            if m == 'save_layer_grad_output':
+                want_u = GAMMA if scaler else (('gamma', 1), ('sigma', 1))
+                ctx.check(isinstance(v, TV) and v.unit == want_u, 'AFF-SCALER', f3, f'{m} (scaler={scaler}): unit {T.ustr(v.unit) if isinstance(v, TV) else None}', f'{m} scaler={scaler}',
+                          f'{m} with{"" if scaler else "out"} a gradient scaler takes the second moment of a tensor with unit {T.ustr(v.unit) if isinstance(v, TV) else None}; '
+                          f'specified {T.ustr(want_u)} (the loss scale must be divided out exactly once when a scaler is supplied)', calls[0][0] if calls else f3.node)
+
+
+def umul2(v: TV) -> tuple:
+    return T.umul(v.unit, v.unit)
